@@ -35,7 +35,7 @@ def make_jobs(ctx):
     jobs = []
     src = os.path.join(H, 'kernels', 'c08_leb.c')
     for t in ('u32', 'i32', 'u64', 'i64'):
-        jobs.append(Job('leb128_' + t, [src], entry='harness_' + t, incs=[W], unwind=14, backends=['sat', 'kissat'], witnesses=['end', 'valid encoding'], ignore_desc=[r'arithmetic overflow on signed shl'],
+        jobs.append(Job('leb128_' + t, [src], entry='harness_' + t, incs=[W], unwind=14, backends=['sat', 'kissat'], witnesses=['end', 'valid encoding'], ignore_desc=[r'arithmetic overflow on signed (shl|unary minus)'],
                         replay=dict(sources=[src], incs=[W], defs=['-Dharness=harness_' + t]),
                         sample={'kernel': 'leb128Read' + t.upper(), 'inputs': 'all byte strings / lengths'}))
     d = ctx.dir('reader')
@@ -49,7 +49,8 @@ def make_jobs(ctx):
                     jobs.append(reader_job('reader_%s_pad_%s_%d' % (tn, fid, a), path, ['-DSEL=%d' % k, '-DAMT=%d' % a], sample={'template': tn, 'padded field': fid, 'extra bytes': a}))
         nsec = sum(1 for p in readergen.TEMPLATES[tn]()[0] if p[0] == 'sec')
         for pos in range(nsec + 1):
-            for (nl, cl, cp) in (((2, 3, 0), (0, 0, 2)) if ctx.quick else ((2, 3, 0), (0, 0, 2), (3, 0, 1), (1, 3, 4))):
-                jobs.append(reader_job('reader_%s_custom_at%d_%d%d%d' % (tn, pos, nl, cl, cp), path, ['-DCUSTOM=%d' % pos, '-DCNL=%d' % nl, '-DCCL=%d' % cl, '-DCPAD=%d' % cp],
-                                       sample={'template': tn, 'custom section before section #': pos, 'name/content bytes': '%d/%d' % (nl, cl)}))
+            for (nl, cl, cp, npad) in (((2, 3, 0, 0), (0, 0, 2, 0), (3, 1, 0, 1), (1, 0, 1, 4)) if ctx.quick else ((2, 3, 0, 0), (0, 0, 2, 0), (3, 0, 1, 1), (1, 3, 4, 4), (3, 3, 0, 2), (0, 2, 0, 3))):
+                jobs.append(reader_job('reader_%s_custom_at%d_%d%d%d%d' % (tn, pos, nl, cl, cp, npad), path,
+                                       ['-DCUSTOM=%d' % pos, '-DCNL=%d' % nl, '-DCCL=%d' % cl, '-DCPAD=%d' % cp, '-DCNPAD=%d' % npad],
+                                       sample={'template': tn, 'custom section before section #': pos, 'name/content bytes': '%d/%d' % (nl, cl), 'size padding': cp, 'name-length padding': npad}))
     return jobs
